@@ -43,6 +43,9 @@ type Known struct {
 	Sig      string `json:"sig"`
 	What     string `json:"what"`
 	Status   string `json:"status"` // open | fixed
+	// AnyProperty: the same defect is met (and tolerated) while checking other
+	// properties whose worlds exercise the same code.
+	AnyProperty bool `json:"any_property,omitempty"`
 	Commit   string `json:"commit,omitempty"`
 }
 
@@ -74,7 +77,7 @@ var KnownList []Known
 func IsKnown(ks []Known, v *Violation) *Known {
 	for i := range ks {
 		k := &ks[i]
-		if k.Status == "open" && k.Property == v.Property && k.Class == v.Class && k.Sig == v.Sig {
+		if k.Status == "open" && (k.Property == v.Property || k.AnyProperty) && k.Class == v.Class && k.Sig == v.Sig {
 			return k
 		}
 	}
@@ -314,6 +317,10 @@ func RunWorker(t *testing.T) {
 			}
 			v := res.Viol
 			v.Property = prop
+			if res.PlanOverride != nil {
+				plan = res.PlanOverride
+				plan.Property, plan.World, plan.Seed, plan.RunSeed = prop, w.Name, base, runSeed
+			}
 			if k := IsKnown(known, v); k != nil {
 				sum.KnownSeen[k.Class+" "+k.Sig]++
 				continue
